@@ -36,6 +36,7 @@ type Frame struct {
 	recov     bool
 	retDst    ssa.Value // value in the caller receiving the result
 	isDefer   bool      // this frame runs a deferred call of the frame below
+	autoInl   bool      // entered by automatic inlining of a contract-less helper
 	top       bool
 	bind      []Value
 	visits    map[int]int // loop header block index -> visits
